@@ -8,7 +8,7 @@ import re
 import tokenize as pt
 
 from harness import impl
-from harness.common import rng, short
+from harness.common import quick_scale, rng, short
 from harness.gen import corpus, pyprog
 
 
@@ -159,7 +159,7 @@ FIELDS_KNOWN = ["{x=}", "{x = }", "{x=!r}", "{x:{w}}", "{x:{w}.{p}}", "{x!r:>{w}
 
 def build_inputs(tier):
     r = rng("C10")
-    N = 1 if tier == "quick" else 20
+    N = quick_scale() if tier == "quick" else 20
     cases = []
     for s in corpus.FSTRINGS:
         cases.append(("pool", "x = " + s + "\n", "exec"))
